@@ -293,6 +293,18 @@ ERef(o, st, tc) ==
       mx == SetMax({dr[a] : a \in A})
   IN [asc |-> asc, desc |-> [a \in A |-> mx + 1 - dr[a]], fragile |-> Fragile(M, A, s)]
 
+(* stage 1: the recorded credibility matrix (hook H2, integers of 1e-6) against the exact rationals; entries whose *)
+(* denominator would overflow TLC's integers are skipped                                                        *)
+CredOK(o, st) ==
+  LET ev == EventsOfKind(o, "evaluate")[1] IN
+  IF ~Has(ev, "cred") THEN TRUE
+  ELSE LET ids == ev.cred.alts
+           A == SeqSet(ids)
+           M == CredMatrix(ECrs(st), StX(st), A, TRUE)
+       IN \A i \in DOMAIN ids : \A j \in DOMAIN ids :
+             LET r == M[ids[i]][ids[j]] IN
+             r[2] > 2000 \/ NAbs(ev.cred.cred6[i][j] * r[2] - r[1] * 1000000) <= 3 * r[2]
+
 C05(o) ==
   LET st == EvalState(o)
       res == Res(o)
@@ -305,6 +317,7 @@ C05(o) ==
   IN IF RIds(res) # A \/ Len(res) # Cardinality(A) THEN {Fail("C05", "entries", "")}
      ELSE (IF linksOK THEN {} ELSE {Fail("C05", "links", "")})
           \cup (IF classesOK(oasc) /\ classesOK(odesc) THEN {} ELSE {Fail("C05", "classes", "")})
+          \cup (IF ~EInDomain(st) \/ CredOK(o, st) THEN {} ELSE {Fail("C05", "credibility", "")})
           \cup (IF ~EInDomain(st) THEN {}
                 ELSE LET ref == ERef(o, st, TRUE) IN
                      IF ref.fragile \/ (ref.asc = oasc /\ ref.desc = odesc) THEN {}
